@@ -39,6 +39,8 @@ import (
 var helperBodies = []string{
 	"{{.X}}", "<b>{{.Y}}</b>", "static", "a < b {{.X}}", "<!-- c -->{{.X}}", "{{.X}}{{.Y}}", "x{{if .C}}y{{end}}", "{{range .L}}{{.}},{{end}}",
 	"{{with .M}}{{.X}}{{end}}", "{{template \"hNEXT\" .}}", "{{if .N}}{{template \"h0\" .N}}{{end}}{{.X}}", "if (a < b) { f(); }",
+	// helpers whose analysis fails: every member that calls them fails with the memoized error
+	"<i {{.X}}>", "{{template \"nope\" .}}", "<a href=x{{.X}}>",
 }
 
 // member bodies: fine ones in many contexts, and failing ones (analysis errors, missing templates, exec errors)
@@ -129,6 +131,7 @@ func dataFor(k int) interface{} {
 // ---- running calls on the real package -------------------------------------------------------------------
 
 func classify(err error) string {
+	_ = err.Error() // callers log errors: formatting reads every field of the error value
 	var te *template.Error
 	if errors.As(err, &te) {
 		return fmt.Sprintf("analysis:%d", te.ErrorCode)
